@@ -60,6 +60,10 @@ KNOWN = [
      "a version tag that is an annotated tag of another annotated tag (`git tag -a -m inner inner HEAD; git tag -a -m outer v3.0.0 inner`) is not found: "
      "`git tag --points-at <commit>` peels one level only, `git describe --tags` finds it; zerv answers exactly as if the tag did not exist "
      "(no small patch: tag discovery would have to change to a fully peeling listing such as `git show-ref --tags -d`)"),
+    ("C03", "clean-prerelease-tag-with-dev-loses-dev",
+     "zerv flow on a clean checkout exactly at a tag of the shape flow prints for dirty / tag-mode-ahead states (e.g. 1.2.4-rc.3.post.1.dev.1790666320, "
+     "1.2.4rc3.post1.dev1790666320) prints the version without the dev part (1.2.4-rc.3.post.1): the clean-at-tag tier of the smart schemas has no dev component, "
+     "so the result is not the tag and sorts above it (a repair is a schema-tier design decision)"),
     ("C04", "flow-distance-above-u32-overflow",
      "zerv flow --source stdin on an object whose distance exceeds 2^32-1 fails in commit post-mode: 'Failed to parse NNN: number too large to fit in target type' "
      "(tag post-mode works) - the post bump is passed through the same u32 bump argument as the length-10 branch hash"),
